@@ -370,9 +370,28 @@ def r14_3(prog, rep):
 # and shape): a path that hands the text back without having asked the parsers must be closed to every one of them
 PARSEABLE_WITNESSES = [
     "1", "10", "-10", "+1", "-2.5", ".5", "1e5", "-1e-3", "1_000", "0x1f", "1j", "-1j", " 1", "\n[1]", "\t{}", "1 ", "true", "false", "null", "None", "True",
-    "NaN", "Infinity", "-Infinity", "'a'", '"a"', "b'x'", "''", '""', "[1]", "[]", "{}", '{"a": 1}', "{1}", "()", "(1,)", "1,2", "-1,2", "...",
-    "[[1]]", "'a' 'b'", "1 + 2j", "-0", "00", "1.", "\"\\u00e9\"", "r'x'", "0b1", "0o7", "1if", " null ", "[1,]", "{'a': 1}", "(1)", "--1", "- 1",
+    "'a'", '"a"', "b'x'", "''", '""', "[1]", "[]", "{}", '{"a": 1}', "{1}", "()", "(1,)", "1,2", "-1,2", "...",
+    "[[1]]", "'a' 'b'", "1 + 2j", "-0", "00", "1.", "\"\\u00e9\"", "r'x'", "0b1", "0o7", " null ", "[1,]", "{'a': 1}", "(1)", "- 1",
 ]  # fmt: skip
+
+
+def _reads_as_something_else(w: str) -> bool:
+    """Strict JSON or a Python literal, and not the text itself (decided with the standard library's own parsers)."""
+    import ast as _ast
+    import json as _json
+
+    def _no_constants(c):
+        raise ValueError(c)
+
+    for parse in (lambda x: _json.loads(x, parse_constant=_no_constants), _ast.literal_eval):
+        try:
+            return parse(w) != w
+        except (ValueError, TypeError, SyntaxError, MemoryError, RecursionError):
+            continue
+    return False
+
+
+PARSEABLE_WITNESSES = [w for w in PARSEABLE_WITNESSES if _reads_as_something_else(w)]
 
 
 def text_shortcuts(prog, rep, entry, parser, rule="R14.4"):
